@@ -9,6 +9,7 @@
  *     letter_freq = histogram of the sequence-line bytes.                                                        */
 #include "kv.h"
 #include "stubs_msg.h"
+#include "stubs_realloc.h"
 #include "msa_io.c"
 
 #ifdef KV_CBMC
@@ -23,7 +24,13 @@ int tl_stopwatch_Display(ESL_STOPWATCH* w){ (void)w; return 0; }
 #ifndef KV_LINELENS
 #define KV_LINELENS {2,2,3}
 #endif
+#ifndef KV_LINEFIRST
+#define KV_LINEFIRST {'>','A','-'}
+#endif
 static const int kv_ll[] = KV_LINELENS;
+/* first byte of every line is part of the concrete shape ('>' = header line, otherwise a representative of a byte class:
+   letter, gap symbol, blank, digit, non-ASCII) so that the number of records is concrete; all other bytes are symbolic */
+static const int kv_first[] = KV_LINEFIRST;
 #define KV_NL ((int)(sizeof(kv_ll)/sizeof(kv_ll[0])))
 #define KV_MAXLL 8
 
@@ -43,9 +50,13 @@ void h_c05_read_fasta(void)
                 char* l = malloc((size_t)kv_ll[i] + 1);
                 __CPROVER_assume(l != NULL);
                 for(j = 0; j < kv_ll[i]; j++){
-                        char c = kv_in_char();
-                        /* no control characters inside a line (read_file_stdin stops at the first one) */
-                        KV_ASSUME(!((c >= 0 && c < 32) || c == 127));
+                        char c;
+                        if(j == 0){ c = (char)kv_first[i]; }
+                        else{
+                                c = kv_in_char();
+                                /* no control characters inside a line (read_file_stdin stops at the first one) */
+                                KV_ASSUME(!((c >= 0 && c < 32) || c == 127));
+                        }
                         l[j] = c; lines[i][j] = c;
                 }
                 l[kv_ll[i]] = 0; lines[i][kv_ll[i]] = 0;
